@@ -17,8 +17,16 @@ MsgImpl(k, p) == [name |-> "M" \o ToString(k), protocol |-> "can", type |-> "M" 
                   signals |-> <<>>]
 Device(ps) == [periods |-> ps, structs |-> [k \in 1..Len(ps) |-> MsgStruct(k)], enums |-> <<>>,
                impls |-> [k \in 1..Len(ps) |-> MsgImpl(k, ps[k])]]
+(* two messages that are bindings of ONE struct (impl can for M1 as M2): each has its own period, identifier and value *)
+DeviceShared(ps) == [periods |-> ps, structs |-> <<MsgStruct(1)>>, enums |-> <<>>,
+                     impls |-> [k \in 1..Len(ps) |-> [MsgImpl(k, ps[k]) EXCEPT !.type = "M1"]]]
+(* a float that is not the first field of its message *)
+MsgStructF(k) == [name |-> "M" \o ToString(k),
+                  fields |-> <<[name |-> "fa", id |-> 0, type |-> U(8), gd |-> 1], [name |-> "fb", id |-> 1, type |-> F32, gd |-> 1]>>]
+DeviceF(ps) == [periods |-> ps, structs |-> [k \in 1..Len(ps) |-> MsgStructF(k)], enums |-> <<>>,
+                impls |-> [k \in 1..Len(ps) |-> MsgImpl(k, ps[k])]]
 Devices == { Device(<<1>>), Device(<<5, NoPeriod>>), Device(<<2, 3>>), Device(<<1000, 5, NoPeriod, 1>>),
-             Device(<<NoPeriod>>), Device(<<7, 7, 100>>) }
+             Device(<<NoPeriod>>), Device(<<7, 7, 100>>), DeviceShared(<<2, 5>>), DeviceF(<<3>>) }
 
 Periods == {sch.periods[i] : i \in 1..Len(sch.periods)} \ {NoPeriod}
 DeltaNats == {0, 1} \cup UNION { {p - 1, p, p + 1, 2 * p} : p \in Periods }
@@ -31,7 +39,9 @@ Step(d) == LET t == AddBits(lastCall, d) IN
            /\ Call(t)
            /\ hist' = Append(hist, [op |-> "T", t |-> t, sent |-> sent'])
 Poke == \E n \in DOMAIN val :
-           LET v == [fa |-> IntOfNat(Len(hist) + 1), fb |-> [s |-> 1, m |-> <<1, 1>>]] IN
+           LET isF == FirstNamed(sch.structs, FirstNamed(sch.impls, n).type).fields[2].type.k = "f32"
+               v == [fa |-> IntOfNat(Len(hist) + 1),
+                     fb |-> IF isF THEN NatBits(1078530011 + Len(hist), 32) ELSE [s |-> 1, m |-> <<1, 1>>]] IN      \* 0x40490fdb = 3.14159...
            /\ val[n] # v
            /\ SetVal(n, v)
            /\ hist' = Append(hist, [op |-> "V", msg |-> n, value |-> v])
